@@ -319,6 +319,9 @@ func (p *Program) sameVar(a, b ssa.Value) bool {
 // from: static calls, bound method values, conversions to an interface. ok=false when some origin is not a local
 // composite literal whose field stores are all visible.
 func (p *Program) methodObjectField(recv ssa.Value, idx int) ([]ssa.Value, bool) {
+	if p.cgBuilding {
+		return nil, false // provenance asked for while the call graph itself is being built
+	}
 	// a value receiver whose fields are addressed is spilled: `t0 = local T (p); *t0 = p; &t0.f`
 	if a, isAlloc := recv.(*ssa.Alloc); isAlloc {
 		var whole []*ssa.Store
